@@ -591,6 +591,42 @@ fn run_one(rt: &tokio::runtime::Runtime, dir: &Path, case: &Value) -> (String, S
 			}
 			r
 		}
+		"mbrun" => {
+			let dec = case["dec"].as_str().unwrap();
+			let (w, sh, n) = (case["width"].as_u64().unwrap(), case["shift"].as_u64().unwrap() as usize, case["len"].as_u64().unwrap() as usize);
+			let ch = match w {
+				2 => "\u{e9}",
+				3 => "\u{20ac}",
+				_ => "\u{1f600}",
+			};
+			let run = |bytes: usize| ch.repeat(bytes / ch.len() + 1);
+			let pad = "x".repeat(sh);
+			// an error site (stray character / bad escape / unbalanced bracket) before, inside or after the run
+			let site = case["site"].as_str().unwrap();
+			let (a, b) = match site {
+				"start" => (String::new(), run(n)),
+				"middle" => (run(n / 2), run(n / 2)),
+				_ => (run(n), String::new()),
+			};
+			let texts: Vec<String> = match dec {
+				"json" | "tilejson" => vec![
+					format!("{{\"{pad}{a}\":tru,\"k\":\"{b}\"}}"),
+					format!("[\"{pad}{a}\\q{b}\"]"),
+					format!("{pad}{a}]{b}"),
+					format!("{{\"name\":\"{pad}{a}\",\"bounds\":[1,2],\"x\":\"{b}\"}}"),
+				],
+				"csv" => vec![format!("id,{pad}{a}\n\"q\"z{b},1\n"), format!("\"{pad}{a}\"y{b}\n")],
+				_ => vec![format!("from_x k=\"{pad}{a}\" ] p=\"{b}\""), format!("from_x {pad}{a}=1 {b}"), format!("from_x k=\"{pad}{a}\\q{b}\"")],
+			};
+			let mut r = ("value".to_string(), String::new());
+			for t in texts {
+				let r2 = run_text(rt, dir, dec, t.as_bytes());
+				if worst(&r.0, &r2.0) != r.0 {
+					r = r2;
+				}
+			}
+			r
+		}
 		"nest" => {
 			let d = case["depth"].as_u64().unwrap() as usize;
 			let dec = case["dec"].as_str().unwrap();
